@@ -8,7 +8,7 @@ symbolic index that the solver enumerates exhaustively; the oracle compares the 
 from engine.hgen import mk
 
 ASSUMPTIONS = [
-    "menu-bounded: modules are [statement A] [from-import under test] [statement B] with A, B from 12 forms (assignment, "
+    "menu-bounded: modules are [statement A] [from-import under test] [statement B] with A, B from 15 forms (assignment, a string assignment with non-ASCII text, relative imports with a module part, "
     "import, unmapped from-import, relative import, star import, nested import inside a def, docstring, comment, if/else, "
     "aliased mapped import with trailing comment, multi-line expression, __future__ import), 4 layouts of the import "
     "(single line, parenthesised multi-line, backslash continuation, parenthesised with comment), every v1 module of the "
@@ -30,7 +30,7 @@ with notrace():
     sel = ([mapped[0]], mapped[:2], [mapped[0], "zzz_unmapped"], ["zzz_unmapped"], [mapped[-1]])[ns]
     names = [(n, ("alias%d" % k if (al and k == 0) else None)) for k, n in enumerate(sel)]
     imp = mig_import_source(module, names, lay)
-    a_src, b_src = MIG_OTHER[fa], MIG_OTHER[fb]
+    a_src, b_src = MIG_OTHER[ORDER[fa]], MIG_OTHER[ORDER[fb]]
     if join == 1:      # same physical line: "<simple statement>; <import>"
         if "\\n" in a_src[:-1] or a_src.startswith(("#", "def", "if", '\"\"\"')) or lay != 0:
             src = None
@@ -66,7 +66,8 @@ def harnesses(tier, seed, active_kf=()):
     n_mod = len(mapping)
     thorough = tier == "thorough"
     out = []
-    forms = 11 if thorough else 7
+    forms = 14 if thorough else 9
+    order = (0, 1, 2, 3, 4, 12, 13, 14, 5, 9, 6, 7, 8, 10, 11)     # quick tier takes the first 10 of these forms
     joins = (0,) if "F19" in active_kf else (0, 1, 2)
     for lay in range(4):
         for join in joins:
@@ -74,7 +75,7 @@ def harnesses(tier, seed, active_kf=()):
                 continue
             params = "mi: int, ns: int, al: bool, fa: int, fb: int, nl: bool"
             pre = ["0 <= mi <= %d" % (n_mod - 1), "0 <= ns <= 4", "0 <= fa <= %d" % forms, "0 <= fb <= %d" % forms]
-            conc = ["mi = conc(mi, %d)" % (n_mod - 1), "ns = conc(ns, 4)", "al = cb(al)", "fa = conc(fa, %d)" % forms,
+            conc = ["ORDER = %r" % (order,), "mi = conc(mi, %d)" % (n_mod - 1), "ns = conc(ns, 4)", "al = cb(al)", "fa = conc(fa, %d)" % forms,
                     "fb = conc(fb, %d)" % forms, "nl = cb(nl)", "lay = %d" % lay, "join = %d" % join]
             out.append(mk("C19.module.lay%d.join%d" % (lay, join), params, BODY.format(conc="\n".join(conc)), covers=("rewritten",),
                           pre=pre, timeout=600, functions=FUNCS, bounds=BOUNDS, cover_timeout=60, meta={"no_deepen": True}))
